@@ -132,6 +132,141 @@ theorem sublayer_structure {layer : List (Nat × Nat)} {l : List Rot}
     rw [List.pairwise_map] at h2
     simpa [Rot.idx] using h2
 
+/-! ### `fermionic_gaussian_decomposition` -/
+
+/-- the column pair `(j, j + 1)` rotated to zero position `(i, j)` of the left block -/
+def gaussPair (p : Nat × Nat) : Nat × Nat := (p.2, p.2 + 1)
+
+theorem gaussLayerLoop_sublist (tol : Rat) (n : Nat) :
+    ∀ (ps : List (Nat × Nat)) (M : Mat) (ops : List GOp) (M' : Mat),
+      gaussLayerLoop tol n ps M = .ok (ops, M') →
+      ∃ rs : List Rot, ops = rs.map GOp.rot ∧ List.Sublist (rs.map Rot.idx) (ps.map gaussPair) := by
+  intro ps
+  induction ps with
+  | nil =>
+    intro M ops M' h
+    simp [gaussLayerLoop] at h
+    obtain ⟨h1, _⟩ := h
+    subst h1
+    exact ⟨[], rfl, by simp⟩
+  | cons p ps ih =>
+    intro M ops M' h
+    obtain ⟨i, j⟩ := p
+    unfold gaussLayerLoop at h
+    simp only at h
+    split at h
+    · cases hG : givensElems tol (M.get i j).conj (M.get i (j + 1)).conj false with
+      | error e => simp [hG, bind, Except.bind] at h
+      | ok G =>
+        cases hP : params G with
+        | error e => simp [hG, hP, bind, Except.bind] at h
+        | ok t =>
+          obtain ⟨s, c, e⟩ := t
+          cases hR : gaussLayerLoop tol n ps (doubleRotateCols M G n j (j + 1)) with
+          | error e => simp [hG, hP, hR, bind, Except.bind] at h
+          | ok t2 =>
+            obtain ⟨ops2, M2⟩ := t2
+            simp only [hG, hP, hR, bind, Except.bind] at h
+            injection h with h
+            injection h with h1 h2
+            subst h1
+            obtain ⟨rs, hrs, hsub⟩ := ih _ _ _ hR
+            refine ⟨⟨j, j + 1, s, c, e⟩ :: rs, by simp [hrs], ?_⟩
+            simpa [Rot.idx, gaussPair] using List.Sublist.cons_cons (j, j + 1) hsub
+    · obtain ⟨rs, hrs, hsub⟩ := ih _ _ _ h
+      exact ⟨rs, hrs, List.Sublist.cons _ hsub⟩
+
+/-- every emitted layer of the Gaussian sweep is non-empty, comes from one scheduled iteration `k`, consists of
+an optional leading `'pht'` (only when `k` is even) followed by rotations whose index pairs form a sub-list of
+that iteration's column pairs -/
+theorem gaussSweep_layers (tol : Rat) (n : Nat) :
+    ∀ (ks : List Nat) (M : Mat) (ls : List (List GOp)) (M' : Mat),
+      gaussSweep tol n ks M = .ok (ls, M') →
+      ls.length ≤ ks.length ∧
+      ∀ l ∈ ls, l ≠ [] ∧ ∃ k ∈ ks, ∃ rs : List Rot,
+        (l = rs.map GOp.rot ∨ (l = GOp.pht :: rs.map GOp.rot ∧ k % 2 = 0)) ∧
+        List.Sublist (rs.map Rot.idx) ((gaussLayer n k).map gaussPair) := by
+  intro ks
+  induction ks with
+  | nil =>
+    intro M ls M' h
+    simp [gaussSweep] at h
+    obtain ⟨h1, _⟩ := h
+    subst h1
+    simp
+  | cons k ks ih =>
+    intro M ls M' h
+    unfold gaussSweep at h
+    simp only at h
+    generalize hpht : (decide (k % 2 = 0) && big tol (M.get (k / 2) (n - 1))) = doPht at h
+    cases hL : gaussLayerLoop tol n (gaussLayer n k)
+        (if doPht = true then swapCols M (n - 1) (2 * n - 1) else M) with
+    | error e => simp [hL, bind, Except.bind] at h
+    | ok t =>
+      obtain ⟨ops, M2⟩ := t
+      cases hS : gaussSweep tol n ks M2 with
+      | error e => simp [hL, hS, bind, Except.bind] at h
+      | ok t2 =>
+        obtain ⟨ls2, M3⟩ := t2
+        simp only [hL, hS, bind, Except.bind] at h
+        injection h with h
+        injection h with h1 h2
+        obtain ⟨hlen, hall⟩ := ih _ _ _ hS
+        obtain ⟨rs, hrs, hsub⟩ := gaussLayerLoop_sublist tol n _ _ _ _ hL
+        have hrest : ∀ l ∈ ls2, l ≠ [] ∧ ∃ k' ∈ k :: ks, ∃ rs : List Rot,
+            (l = rs.map GOp.rot ∨ (l = GOp.pht :: rs.map GOp.rot ∧ k' % 2 = 0)) ∧
+            List.Sublist (rs.map Rot.idx) ((gaussLayer n k').map gaussPair) := by
+          intro l hl
+          obtain ⟨hne, k', hk', rs', hl', hs'⟩ := hall l hl
+          exact ⟨hne, k', List.mem_cons_of_mem _ hk', rs', hl', hs'⟩
+        by_cases hemp : (if doPht = true then GOp.pht :: ops else ops).isEmpty = true
+        · simp only [hemp, if_true] at h1
+          subst h1
+          exact ⟨by simp; omega, hrest⟩
+        · simp only [hemp] at h1
+          subst h1
+          refine ⟨by simp; omega, ?_⟩
+          intro l hl
+          rcases List.mem_cons.mp hl with rfl | hl
+          · refine ⟨?_, k, List.mem_cons_self, rs, ?_, hsub⟩
+            · intro h0; apply hemp; simp [h0]
+            · cases hd : doPht with
+              | false => left; simp [hrs]
+              | true =>
+                right
+                refine ⟨by simp [hrs], ?_⟩
+                rw [hd] at hpht
+                have := (Bool.and_eq_true _ _).mp hpht
+                simpa using this.1
+          · exact hrest l hl
+
+theorem zipDown_pairwise (er ec len : Nat) :
+    (zipDown er ec len).Pairwise (fun p q => p.2 + 2 ≤ q.2) := by
+  unfold zipDown
+  rw [List.pairwise_map]
+  exact List.Pairwise.imp (fun {a b} (h : a < b) => by simp only; omega) List.pairwise_lt_range
+
+theorem gaussLayer_pairwise (n k : Nat) : (gaussLayer n k).Pairwise (fun p q => p.2 + 2 ≤ q.2) := by
+  unfold gaussLayer; split <;> exact zipDown_pairwise _ _ _
+
+theorem gauss_sublayer_structure {layer : List (Nat × Nat)} {l : List Rot}
+    (hp : layer.Pairwise (fun p q => p.2 + 2 ≤ q.2))
+    (hs : List.Sublist (l.map Rot.idx) (layer.map gaussPair)) :
+    (∀ r ∈ l, ∃ p ∈ layer, r.i = p.2 ∧ r.j = p.2 + 1) ∧ l.Pairwise (fun r r' => r.j + 2 ≤ r'.j) := by
+  constructor
+  · intro r hr
+    have : r.idx ∈ layer.map gaussPair := hs.subset (List.mem_map_of_mem hr)
+    obtain ⟨p, hp', he⟩ := List.mem_map.mp this
+    refine ⟨p, hp', ?_, ?_⟩
+    · have := congrArg Prod.fst he; simpa [gaussPair, Rot.idx] using this.symm
+    · have := congrArg Prod.snd he; simpa [gaussPair, Rot.idx] using this.symm
+  · have h1 : (layer.map gaussPair).Pairwise (fun p q => p.2 + 2 ≤ q.2) := by
+      rw [List.pairwise_map]
+      exact List.Pairwise.imp (fun {a b} (h : a.2 + 2 ≤ b.2) => by simp only [gaussPair]; omega) hp
+    have h2 := h1.sublist hs
+    rw [List.pairwise_map] at h2
+    simpa [Rot.idx] using h2
+
 end C11
 end Model
 end OFV
